@@ -5,13 +5,13 @@ import Spine.Dispatch
 namespace Spine.Disp
 
 /-- what the SPINE classifier rules prescribe -/
-inductive Resp | reply (fn : Nat) | success | error deriving DecidableEq, Repr
+inductive Resp | reply (fn : Nat) (val : Nat) | success | error deriving DecidableEq, Repr
 
 /-- replies and results are responses; requests and notifications the stack sends on its own account are not -/
 def respOf : Out → Option Resp
-  | .reply _ fn _ _ => some (.reply fn)
-  | .result _ 0 _ _ => some .success
-  | .result _ (_ + 1) _ _ => some .error
+  | .reply _ fn _ _ v _ => some (.reply fn v)
+  | .result _ 0 _ _ _ => some .success
+  | .result _ (_ + 1) _ _ _ => some .error
   | _ => none
 
 /-- a response together with the connection it is written to -/
@@ -32,13 +32,40 @@ def expected (w : W) (p : Nat) (d : Dg) : List Resp :=
       else match handle lf rf d with
         | (some _, _) => [.error]                  -- rejected
         | (none, replied) =>                       -- accepted: the reply if it is a read, the acknowledgement if requested
-          (if replied then [.reply d.fn] else []) ++ (if d.ack && d.cls ≠ .read then [.success] else [])
+          (if replied then [.reply d.fn (replyVal w p lf d)] else []) ++ (if d.ack && d.cls ≠ .read then [.success] else [])
 
 /-- node management announces no writable function (true of `NewNodeManagement`) -/
 def nmReadOnly (w : W) : Prop := ∀ lf ∈ w.loc, lf.nm = true → ∀ o ∈ lf.ops, o.2 = false
 
 /-- the one excluded point: a result addressed to a feature that does not exist -/
 def resultToUnknown (w : W) (d : Dg) : Prop := d.cls = .result ∧ dstF w d = none
+
+/-- the step cannot trip the unrepaired `PrintMessageOverview`: either the member is repaired or the datagram is
+    well-formed (reference present where required, result data with error number, counter present) -/
+def NoCrash (w : W) (d : Dg) : Prop := w.cfg.overviewPanics = true → wf d = true
+
+theorem crashes_false (w : W) (p : Nat) (lf : LF) (rf : RF) (d : Dg) (h : NoCrash w d) : crashes w p lf rf d = false := by
+  unfold crashes
+  cases hc : w.cfg.overviewPanics with
+  | false => rfl
+  | true =>
+    have := h hc
+    unfold wf at this
+    simp only [Bool.and_eq_true, Bool.not_eq_true'] at this
+    cases hctr : d.ctr with
+    | none => rw [hctr] at this; simp at this
+    | some c => simp [this.1]
+
+theorem unknown_no_panic (w : W) (d : Dg) (h : NoCrash w d) : (w.cfg.overviewPanics && d.ctr.isNone) = false := by
+  cases hc : w.cfg.overviewPanics with
+  | false => rfl
+  | true =>
+    have := h hc
+    unfold wf at this
+    simp only [Bool.and_eq_true, Bool.not_eq_true'] at this
+    cases hctr : d.ctr with
+    | none => rw [hctr] at this; simp at this
+    | some c => simp
 
 theorem handleNM_err_pos (d : Dg) (e : Nat) (b : Bool) (h : handleNM d = (some e, b)) : e ≠ 0 := by
   unfold handleNM at h
@@ -79,6 +106,8 @@ theorem respOf_res_err (d : Dg) (e : Nat) (he : e ≠ 0) : respOf (res d e) = so
   | zero => exact absurd rfl he
   | succ n => rfl
 
+theorem respOf_resU (d : Dg) : respOf (resU d) = some .error := rfl
+
 theorem gate_false_of_nm (w : W) (p : Nat) (lf : LF) (d : Dg) (hNM : nmReadOnly w) (hmem : lf ∈ w.loc)
     (hnm : lf.nm = true) : gateOk w p lf d = false := by
   unfold gateOk writable
@@ -97,7 +126,7 @@ theorem responses_spec (w : W) (p : Nat) (lf : LF) (rf : RF) (d : Dg) (hNM : nmR
       else match handle lf rf d with
         | (some _, _) => [.error]
         | (none, replied) =>
-          (if replied then [.reply d.fn] else []) ++ (if d.ack && d.cls ≠ .read then [.success] else [])) := by
+          (if replied then [.reply d.fn (replyVal w p lf d)] else []) ++ (if d.ack && d.cls ≠ .read then [.success] else [])) := by
   unfold responses
   by_cases hw : d.cls = .write
   · -- writes
@@ -143,7 +172,7 @@ theorem responses_result (w : W) (p : Nat) (lf : LF) (rf : RF) (d : Dg) (hres : 
       simp [this, hres]
 
 theorem kindOf_notifs (w : W) (d : Dg) : (notifs w d).filterMap kindOf = [] := by
-  unfold notifs
+  unfold notifs notifsAt
   induction (w.subs.filter fun s => s.1 = d.dst) with
   | nil => rfl
   | cons s l ih => simpa [List.filterMap_cons, kindOf, respOf] using ih
@@ -163,7 +192,7 @@ theorem kindOf_tag (p : Nat) (l : List Out) :
     `PrintMessageOverview`, except — in members that still answer it — a result addressed to a feature that does not
     exist, the responses the stack emits are exactly those the classifier rules prescribe, all of them written to
     the sender's connection — no more and no fewer, and none to any other peer -/
-theorem c01_exact_partial (w : W) (p : Nat) (d : Dg) (hwf : panics d = false) (hNM : nmReadOnly w)
+theorem c01_exact_partial (w : W) (p : Nat) (d : Dg) (hwf : NoCrash w d) (hNM : nmReadOnly w)
     (hx : w.cfg.resultOnResult = true → ¬ resultToUnknown w d) :
     (processCmd w p d).2.filterMap kindOf = (expected w p d).map fun r => (p, r) := by
   unfold processCmd expected
@@ -179,10 +208,10 @@ theorem c01_exact_partial (w : W) (p : Nat) (d : Dg) (hwf : panics d = false) (h
           | false => rfl
           | true => exact absurd ⟨hres, hdst⟩ (hx hf)
         simp [hres, hflag]
-      · simp [hres, kindOf, respOf, res]
+      · simp [hres, unknown_no_panic w d hwf, kindOf, respOf_resU]
     | some lf =>
       have hmem : lf ∈ w.loc := List.mem_of_find?_eq_some hdst
-      simp only [hwf, Bool.false_eq_true, if_false]
+      simp only [crashes_false w p lf rf d hwf, Bool.false_eq_true, if_false]
       by_cases hres : d.cls = .result
       · -- an incoming result is never answered
         have hresp : responses w p lf rf d = [] := responses_result w p lf rf d hres
@@ -205,17 +234,17 @@ theorem c01_exact_partial (w : W) (p : Nat) (d : Dg) (hwf : panics d = false) (h
         · simp only [houts, hsp]
 
 /-- C01 for the repaired member (`resultOnResult` off): no exclusion left -/
-theorem c01_exact (w : W) (p : Nat) (d : Dg) (hcfg : w.cfg.resultOnResult = false) (hwf : panics d = false)
+theorem c01_exact (w : W) (p : Nat) (d : Dg) (hcfg : w.cfg.resultOnResult = false) (hwf : NoCrash w d)
     (hNM : nmReadOnly w) :
     (processCmd w p d).2.filterMap kindOf = (expected w p d).map fun r => (p, r) :=
   c01_exact_partial w p d hwf hNM (fun h => by rw [hcfg] at h; cases h)
 
 def refW : W := { loc := [], peers := fun _ => { feats := [⟨[0], 0, [], 0, .special⟩], msgNum := 0, req := [] }, binds := [] }
-def refD : Dg := ⟨([0], 0), ([9], 9), 7, some 3, .result, false, 900, false⟩
+def refD : Dg := { src := ([0], 0), dst := ([9], 9), ctr := some 7, ref := some 3, cls := .result, ack := false, fn := 900 }
 
 /-- the full statement is false of the code as it is: a result to an unknown feature is answered with a result -/
 theorem c01_exact_refuted :
-    ∃ (w : W) (p : Nat) (d : Dg), w.cfg = {} ∧ panics d = false ∧ nmReadOnly w ∧
+    ∃ (w : W) (p : Nat) (d : Dg), w.cfg = {} ∧ wf d = true ∧ nmReadOnly w ∧
       (processCmd w p d).2.filterMap kindOf ≠ (expected w p d).map fun r => (p, r) := by
   refine ⟨refW, 1, refD, rfl, by decide, ?_, by decide⟩
   intro lf hlf; cases hlf
@@ -223,8 +252,8 @@ theorem c01_exact_refuted :
 /-- a response is written to the sender's connection, references the request's counter, is addressed to the
     request's source and names the addressed feature as its source -/
 def addressed (p : Nat) (d : Dg) : Nat × Out → Prop
-  | (q, .reply r _ s t) => q = p ∧ r = d.ctr ∧ s = d.dst ∧ t = d.src
-  | (q, .result r _ s t) => q = p ∧ r = d.ctr ∧ s = d.dst ∧ t = d.src
+  | (q, .reply r _ s t _ sd) => q = p ∧ r = d.ctr ∧ s = d.dst ∧ t = d.src ∧ (sd = some 0 ∨ sd = d.dstDev)
+  | (q, .result r _ s t sd) => q = p ∧ r = d.ctr ∧ s = d.dst ∧ t = d.src ∧ (sd = some 0 ∨ sd = d.dstDev)
   | _ => True
 
 theorem responses_addressed (w : W) (p : Nat) (lf : LF) (rf : RF) (d : Dg) :
@@ -242,7 +271,7 @@ theorem responses_addressed (w : W) (p : Nat) (lf : LF) (rf : RF) (d : Dg) :
 
 theorem notifs_addressed (w : W) (p : Nat) (d : Dg) : ∀ o ∈ notifs w d, addressed p d o := by
   intro o ho
-  unfold notifs at ho
+  unfold notifs notifsAt at ho
   simp only [List.mem_map] at ho
   obtain ⟨s, _, rfl⟩ := ho
   trivial
@@ -269,7 +298,9 @@ theorem c01_addressing (w : W) (p : Nat) (d : Dg) (o : Nat × Out) (ho : o ∈ (
       simp only [hdst] at ho
       split at ho
       · simp at ho
-      · simp only [List.mem_singleton] at ho; subst ho; simp [addressed, res]
+      · split at ho
+        · simp only [List.mem_singleton] at ho; subst ho; trivial
+        · simp only [List.mem_singleton] at ho; subst ho; simp [addressed, resU]
     | some lf =>
       simp only [hdst] at ho
       have houts : ∀ o ∈ (if applies w p lf d = true then notifs w d else []) ++ tag p (responses w p lf rf d),
